@@ -76,15 +76,31 @@ package dag
 
 //@ func parseVersion
 //@   prop C06
+//@   note floats ieee
 //@   ensures [header-present-and-number] isNilIface(result) ==> headers.Get(versionHeader).1 && typeOf(headers.Get(versionHeader).0) == float64
 //@   ensures [version-allowed] isNilIface(result) ==> versionAllowed(transaction.version)
+//@   ensures [version-is-the-integer-the-header-holds] isNilIface(result) ==> did(call uint32Header #1) && ret(call uint32Header #1).1 == true
+//@        && transaction.version == Version(ret(call uint32Header #1).0) && same(arg(call uint32Header #1, 0), headers.Get(versionHeader).0.(float64))
 
 //@ func versionAllowed
 //@   pure
 
+// The number in a header is taken as an unsigned 32-bit integer only if it IS one (IEEE 754 binary64
+// semantics, decided exactly): not negative, not above MaxUint32, no fraction, not NaN; the integer
+// returned converts back to exactly that number.
+//@ func uint32Header
+//@   prop C06
+//@   note floats ieee
+//@   modifies nothing
+//@   ensures [ok-iff-an-integer-in-range] result.1 <==> (value >= 0 && value <= 4294967295 && math.Trunc(value) == value)
+//@   ensures [value-preserved] result.1 ==> float64(result.0) == value
+
 //@ func parseLamportClock
 //@   prop C06
+//@   note floats ieee
 //@   ensures [header-present-and-number] isNilIface(result) ==> headers.Get(lamportClockHeader).1 && typeOf(headers.Get(lamportClockHeader).0) == float64
+//@   ensures [clock-is-the-integer-the-header-holds] isNilIface(result) ==> did(call uint32Header #1) && ret(call uint32Header #1).1 == true
+//@        && transaction.lamportClock == ret(call uint32Header #1).0 && same(arg(call uint32Header #1, 0), headers.Get(lamportClockHeader).0.(float64))
 
 // ---- C06 / C17: verifying a transaction ----
 
